@@ -24,7 +24,7 @@ ASANLOG = os.path.join(VERIF, "build", "sanlogs")
 # property -> parts.  A part is (scenario, variant, workers, chunk, extra args)
 PROPS = {
     "C08": dict(level="exploration", design="4.1",
-                parts=[("honest", "plain", 10, 50, []), ("honest", "asan", 3, 12, []), ("honest", "asan-if", 3, 6, [])],
+                parts=[("honest", "plain", 9, 50, []), ("honest", "asan", 3, 12, []), ("honest", "asan-if", 2, 6, []), ("honest", "tsan-if", 2, 6, [])],
                 quick_s=55, thorough_s=900, quick_max=40000, thorough_max=2000000,
                 rule="one run = one simulated client/server connection (handshake, 1..12 data rounds, orderly close) "
                      "generated from H(VERIF_SEED, scenario, index); non-trivial = at least 3 context switches between "
